@@ -112,7 +112,9 @@ func (g *gen) emit(s string) {
 
 func (g *gen) mark() string {
 	g.marker++
-	return fmt.Sprintf("m%d%s", g.marker, []string{"", " text", " with 'quotes' and \"dq\"", " 世界", " a=b +c @d"}[g.r.Intn(5)])
+	return fmt.Sprintf("m%d%s", g.marker, []string{"", " text", " with 'quotes' and \"dq\"", " 世界", " a=b +c @d",
+		// prose that LOOKS like a directive (word:word without a space): only //go: lines are directives
+		":8080 is the default", ":port form", ":x"}[g.r.Intn(8)])
 }
 
 func (g *gen) name(prefix string) string {
